@@ -281,8 +281,10 @@ def isInfix (pat : List Char) : List Char → Bool
   | [] => pat.isEmpty
   | cs@(_ :: rest) => pat.isPrefixOf cs || isInfix pat rest
 
+/-- an integer constant whose C++ spelling is a `long` literal: outside the `int` range, or `-2147483648` (which C++
+    reads as `-(2147483648L)`) -/
 def outsideInt : Operand → Bool
-  | .const (.integer v) => !(QV.Spec.Sem.inI32 v)
+  | .const (.integer v) => !(QV.Spec.Sem.inI32 v) || v == -2147483648
   | _ => false
 
 /-- the model IR passes an integer constant outside the `int` range to `std::max`/`std::min` or to a method -/
